@@ -1,0 +1,262 @@
+//go:build verif
+
+// Contracts for the journal opcodes, the Artela precompiles and the Cancun
+// additions (comment-only file, compiled only under the "verif" build tag; it
+// adds no code).
+package vm
+
+// Instruction protocol (what (*EVMInterpreter).Run guarantees before it calls
+// an execute function, upstream code checked by EQ): the interpreter, its EVM,
+// state database, tracer, the scope's stack, memory and contract are non-nil,
+// the contract's self reference is a non-nil ContractRef, and the stack holds
+// at least minStack items (ground evaluation ties minStack to the entry).
+//@ pred top(scope, k) = scope.Stack.data[len(scope.Stack.data) - 1 - k]
+//@ pred opProtocol(interpreter, scope) = interpreter != nil && interpreter.evm != nil && interpreter.tracer != nil && interpreter.evm.StateDB != nil && scope != nil && scope.Stack != nil && scope.Memory != nil && scope.Contract != nil && scope.Contract.self != nil && interpreter.tracer.states != nil && interpreter.tracer.callTree != nil
+
+//@ func vm.opValueChangeJournal(ctx, pc, interpreter, scope) (ret, err)
+//@   verify
+//@   safety [C03]
+//@   requires protocol [C03]: opProtocol(interpreter, scope) && len(scope.Stack.data) >= 4
+//@   ghost slot0 u256 = top(scope, 0)
+//@   ghost off0 u256 = top(scope, 1)
+//@   ghost width0 u256 = top(scope, 2)
+//@   ghost typ0 u256 = top(scope, 3)
+//@   ghost n u64 = 0
+//@   ghost reads u64 = 0
+//@   ghost w bv256 = 0
+//@   ghost key bv256 = 0
+//@   ghost acct addr = 0
+//@   ghost saverr error = nil
+//@   let ok = math(off0) <= 31 && math(width0) <= 32 && math(off0) + math(width0) <= 32
+//@   let selfaddr = uf("iface:vm.ContractRef.Address#0", "bv160", scope.Contract.self)
+//@   oncall StateDB.GetState : w = $r ; reads = reads + 1 ; key = $2 ; acct = $1
+//@   oncall (*vm.Tracer).SaveStateChange : n = n + 1 ; saverr = $r
+//@   assertcall (*vm.Tracer).SaveStateChange account [C10]: $1 == selfaddr
+//@   assertcall (*vm.Tracer).SaveStateChange operands [C09]: $2 != nil && *$2 == slot0 && $3 != nil && *$3 == off0 && $4 == be32(typ0)
+//@   assertcall (*vm.Tracer).SaveStateChange source [C09 C10]: reads == 1 && key == be32(slot0) && acct == selfaddr
+//@   assertcall (*vm.Tracer).SaveStateChange packed-value [C09]: ok && len($5) == uint64(width0) && (forall i uint64 :: i < len($5) ==> $5[i] == bytei(w, 32 - uint64(off0) - uint64(width0) + i))
+//@   ensures valid-journals-once [C09]: ok ==> n == 1 && err == saverr
+//@   ensures invalid-rejected [C09 C12]: !ok ==> n == 0 && err != nil && err != errStopToken && err != ErrExecutionReverted
+//@   ensures no-return-data [C12]: ret == nil
+//@   ensures pops-four [C12]: len(scope.Stack.data) == old(len(scope.Stack.data)) - 4
+//@   modifies vm.Stack.data, cell:[]byte, map:map[uint64][][]byte, vm.StorageKey.changes, vm.StorageKey.nodeType
+//@   witness s0: top(scope, 0)
+//@   witness s1: top(scope, 1)
+//@   witness s2: top(scope, 2)
+//@   witness s3: top(scope, 3)
+//@   witness-bytes mem 512: scope.Memory.store
+//@   witness readonly: interpreter.readOnly
+//@ end
+
+// Solidity layout of bytes/string at slot p (word W = value at p, numeric big-endian):
+//   W even : in place, length = (W & 0xff) / 2 (valid iff < 32), content = first length bytes of W
+//   W odd  : out of place, length = (W - 1) / 2 (valid iff >= 32), content = the words at
+//            keccak256(p as 32 bytes) + 0, 1, ... truncated to length
+//@ func vm.opReferenceChangeJournal(ctx, pc, interpreter, scope) (ret, err)
+//@   verify
+//@   safety [C03]
+//@   requires protocol [C03]: opProtocol(interpreter, scope) && len(scope.Stack.data) >= 2
+//@   ghost slot0 u256 = top(scope, 0)
+//@   ghost typ0 u256 = top(scope, 1)
+//@   ghost n u64 = 0
+//@   ghost reads u64 = 0
+//@   ghost w bv256 = 0
+//@   ghost base u256 = 0
+//@   ghost saverr error = nil
+//@   let wn = be32(w)
+//@   let inplace = (wn & 1) == 0
+//@   let slen = (wn & 255) / 2
+//@   let llen = wn / 2
+//@   let valid = (inplace && slen < 32) || (!inplace && llen >= 32 && llen < 18446744073709551616)
+//@   let selfaddr = uf("iface:vm.ContractRef.Address#0", "bv160", scope.Contract.self)
+//@   ghost last bv256 = 0
+//@   oncall StateDB.GetState : last = $r ; reads = reads + 1
+//@   assertcall (common.Hash).Bytes decoded-word-is-the-slot-word [C09]: reads == 1 && $0 == last
+//@   oncall (common.Hash).Bytes : w = $0
+//@   oncall (*uint256.Int).SetBytes : base = *$0
+//@   oncall (*vm.Tracer).SaveStateChange : n = n + 1 ; saverr = $r
+//@   assertcall StateDB.GetState slot-word-read [C09 C10]: reads == 0 ==> $1 == selfaddr && $2 == be32(slot0)
+//@   assertcall StateDB.GetState data-word-read [C09 C10]: reads >= 1 ==> $1 == selfaddr && $2 == be32(base + u256(reads - 1))
+//@   assertcall KeccakState.Write hashed-slot-is-32-bytes [C09]: len($1) == 32 && word($1, 0) == slot0
+//@   assertcall (*vm.Tracer).SaveStateChange account [C10]: $1 == selfaddr
+//@   assertcall (*vm.Tracer).SaveStateChange operands [C09]: $2 != nil && *$2 == slot0 && $3 == nil && $4 == be32(typ0)
+//@   assertcall (*vm.Tracer).SaveStateChange decoded-length [C09]: valid && (inplace ==> len($5) == uint64(slen)) && (!inplace ==> len($5) == uint64(llen) && math(reads) == 1 + (math(uint64(llen)) + 31) / 32)
+//@   assertcall (*vm.Tracer).SaveStateChange in-place-content [C09]: inplace ==> (forall i uint64 :: i < len($5) ==> $5[i] == bytei(w, i))
+//@   loop 0 invariant reads [C09]: reads == i + 1 && n == 0
+//@   loop 0 invariant cursor [C09]: *referenceSlot == base + u256(i)
+//@   loop 0 invariant collected [C03 C09]: math(len(stateBytes)) == 32 * math(i) && length >= 32 && (stateBytes == nil || loopfresh(stateBytes))
+//@   loop 0 invariant bound [C03 C09]: math(i) <= (math(length) + 31) / 32
+//@   ensures valid-journals-once [C09]: valid ==> n == 1 && err == saverr
+//@   ensures invalid-rejected [C09 C12]: !valid ==> n == 0 && err != nil && err != errStopToken && err != ErrExecutionReverted
+//@   ensures no-return-data [C12]: ret == nil
+//@   ensures pops-two [C12]: len(scope.Stack.data) == old(len(scope.Stack.data)) - 2
+//@   modifies vm.Stack.data, cell:[]byte, map:map[uint64][][]byte, vm.StorageKey.changes, vm.StorageKey.nodeType, vm.EVMInterpreter.hasher, vm.EVMInterpreter.hasherBuf
+//@   witness s0: top(scope, 0)
+//@   witness s1: top(scope, 1)
+//@   witness-bytes mem 512: scope.Memory.store
+//@   witness readonly: interpreter.readOnly
+//@ end
+
+//@ func vm.opReferenceIndexValueStorageJournal
+//@   verify
+//@   safety [C03]
+//@   requires protocol [C03]: opProtocol(interpreter, scope) && len(scope.Stack.data) >= 6
+//@   witness s0: top(scope, 0)
+//@   witness s1: top(scope, 1)
+//@   witness s2: top(scope, 2)
+//@   witness s3: top(scope, 3)
+//@   witness s4: top(scope, 4)
+//@   witness s5: top(scope, 5)
+//@   witness-bytes mem 512: scope.Memory.store
+//@   witness readonly: interpreter.readOnly
+//@ end
+
+//@ func vm.opValueIndexValueStorageJournal
+//@   verify
+//@   safety [C03]
+//@   requires protocol [C03]: opProtocol(interpreter, scope) && len(scope.Stack.data) >= 6
+//@   witness s0: top(scope, 0)
+//@   witness s1: top(scope, 1)
+//@   witness s2: top(scope, 2)
+//@   witness s3: top(scope, 3)
+//@   witness s4: top(scope, 4)
+//@   witness s5: top(scope, 5)
+//@   witness-bytes mem 512: scope.Memory.store
+//@   witness readonly: interpreter.readOnly
+//@ end
+
+//@ func vm.opReferenceIndexReferenceStorageJournal
+//@   verify
+//@   safety [C03]
+//@   requires protocol [C03]: opProtocol(interpreter, scope) && len(scope.Stack.data) >= 5
+//@   witness s0: top(scope, 0)
+//@   witness s1: top(scope, 1)
+//@   witness s2: top(scope, 2)
+//@   witness s3: top(scope, 3)
+//@   witness s4: top(scope, 4)
+//@   witness-bytes mem 512: scope.Memory.store
+//@   witness readonly: interpreter.readOnly
+//@ end
+
+//@ func vm.opValueIndexReferenceStorageJournal
+//@   verify
+//@   safety [C03]
+//@   requires protocol [C03]: opProtocol(interpreter, scope) && len(scope.Stack.data) >= 5
+//@   witness s0: top(scope, 0)
+//@   witness s1: top(scope, 1)
+//@   witness s2: top(scope, 2)
+//@   witness s3: top(scope, 3)
+//@   witness s4: top(scope, 4)
+//@   witness-bytes mem 512: scope.Memory.store
+//@   witness readonly: interpreter.readOnly
+//@ end
+
+//@ func vm.opReferenceStateVarJournal
+//@   verify
+//@   safety [C03]
+//@   requires protocol [C03]: opProtocol(interpreter, scope) && len(scope.Stack.data) >= 3
+//@   witness s0: top(scope, 0)
+//@   witness s1: top(scope, 1)
+//@   witness s2: top(scope, 2)
+//@   witness-bytes mem 512: scope.Memory.store
+//@   witness readonly: interpreter.readOnly
+//@ end
+
+//@ func vm.opValueStateVarJournal
+//@   verify
+//@   safety [C03]
+//@   requires protocol [C03]: opProtocol(interpreter, scope) && len(scope.Stack.data) >= 4
+//@   witness s0: top(scope, 0)
+//@   witness s1: top(scope, 1)
+//@   witness s2: top(scope, 2)
+//@   witness s3: top(scope, 3)
+//@   witness-bytes mem 512: scope.Memory.store
+//@   witness readonly: interpreter.readOnly
+//@ end
+
+//@ func vm.loadDataFromMem
+//@   verify
+//@   safety [C03]
+//@   requires args [C03]: memPtr != nil && mem != nil
+//@   witness ptr: *memPtr
+//@   witness-bytes mem 512: mem.store
+//@ end
+
+//@ func vm.loadParamBytes
+//@   verify
+//@   safety [C03 C14]
+//@   requires idx [C14]: index == 0 || index == 1
+//@   witness-bytes input 256: input
+//@   witness index: index
+//@ end
+
+//@ func (*vm.aspcontext).Run
+//@   verify
+//@   safety [C03 C14]
+//@   witness-bytes input 512: input
+//@ end
+
+//@ func (*vm.userOpSender).Run
+//@   verify
+//@   safety [C03 C14]
+//@   witness-bytes input 512: input
+//@ end
+
+//@ func (*vm.contextWriter).Run
+//@   verify
+//@   safety [C03 C14]
+//@   requires recv [C03]: c != nil
+//@   witness-bytes input 512: input
+//@   witness ctxnil: c.ctx == nil
+//@ end
+
+//@ func (*vm.contextWriter).CloneWithCtx
+//@   verify
+//@   safety [C03 C14]
+//@ end
+
+//@ func (*vm.Memory).Copy
+//@   verify
+//@   safety [C03 C15]
+//@   requires recv [C03]: m != nil
+//@   witness-bytes mem 512: m.store
+//@   witness dst: dst
+//@   witness src: src
+//@   witness len: len
+//@ end
+
+//@ func vm.memoryMcopy
+//@   verify
+//@   safety [C03 C15]
+//@   requires stack [C03]: stack != nil && len(stack.data) >= 3
+//@ end
+
+//@ func vm.opMcopy
+//@   verify
+//@   safety [C03 C15]
+//@   requires protocol [C03]: opProtocol(interpreter, scope) && len(scope.Stack.data) >= 3
+//@   witness s0: top(scope, 0)
+//@   witness s1: top(scope, 1)
+//@   witness s2: top(scope, 2)
+//@   witness-bytes mem 512: scope.Memory.store
+//@   witness readonly: interpreter.readOnly
+//@ end
+
+//@ func vm.opTload
+//@   verify
+//@   safety [C03 C15]
+//@   requires protocol [C03]: opProtocol(interpreter, scope) && len(scope.Stack.data) >= 1
+//@   witness s0: top(scope, 0)
+//@   witness-bytes mem 512: scope.Memory.store
+//@   witness readonly: interpreter.readOnly
+//@ end
+
+//@ func vm.opTstore
+//@   verify
+//@   safety [C03 C15]
+//@   requires protocol [C03]: opProtocol(interpreter, scope) && len(scope.Stack.data) >= 2
+//@   witness s0: top(scope, 0)
+//@   witness s1: top(scope, 1)
+//@   witness-bytes mem 512: scope.Memory.store
+//@   witness readonly: interpreter.readOnly
+//@ end
